@@ -447,6 +447,21 @@ class Run:
                         w.run_for(rng.choice([0.0, 0.0, 0.01, 0.2]))
                     self.count('pairs_of_copies_started_together')
                     break
+        elif kind == 'dup_then_kill_copy':
+            # a second copy of a running process is started directly on another instance, then THAT copy dies (killed:
+            # unexpected exit, or FATAL if it was still starting) while the first one keeps running
+            dup = self.duplicate_some_process()
+            rec['dup'] = dup
+            if dup and dup[3] == 'ok':
+                namespec, first, second = dup[:3]
+                w.run_for(rng.choice([0.3, 1.5, 4.0, 8.0]))
+                inst2 = w.instances[second]
+                pids = [pid for pid, r in inst2.procs.items() if r['namespec'] == namespec and not r['dead']
+                        and r.get('death_at') is None]
+                if pids and inst2.alive:
+                    inst2._schedule_death(pids[0], w.now, 9)
+                    rec['copy_killed'] = (namespec, first, second, w.now)
+                    self.count('copies_killed_while_another_copy_runs')
         elif kind == 'dup_unmanaged':
             # a process of an unmanaged application started directly on two instances: not a conflict for Supvisors
             names = [ns for ns in self.procs if not self.model[ns.split(':')[0]]['managed']]
